@@ -140,6 +140,9 @@ def eval_input(case, rec):
              key=[fam, name, alt, v], sample={'family': fam, 'line': f'{name}, {sval} {alt}', 'equivalent_bare': f'{name}, {gen.fmt(v)}'}
              if hash((name, alt)) % 25 == 0 else None)
     if not b.ok:
+        if b.exc['type'] == 'RunTimeout':
+            rec.label('unit_run_hit_the_hang_guard')  # inconclusive, never a violation
+            return
         bad('raises', {'written_as': f'{sval} {alt}', 'error': b.exc}, error=str(b.exc['type']))
         return
     diff = close_snap(a.snap, b.snap)
@@ -204,8 +207,8 @@ def _displayed_outputs():
     lm = c09.line_map()
     out = {}
     for key, spec in lm.items():
-        if not spec['candidates']:
-            continue
+        if not spec['candidates'] or spec['n_candidates'] != 1:
+            continue  # only lines whose source quantity is unambiguous in the line table are attributed to an output
         q = spec['candidates'][0].split('|')[0]
         out.setdefault(q, []).append(tuple(key.split('||')))
     return out
